@@ -109,6 +109,12 @@ WELL = {
     'heading_end': ('\\section{A}', {}),
     'item_end': ('\\begin{enumerate}\\item', {}),
     'phrase_end': ('A \\zzfoo{B C} D', {}),
+    'body_blank_lines_removed': ('\\newcommand{\\p}{          \n\n}x\n{}\\p', {}),
+    'body_blank_lines_removed2': ('\\newcommand{\\x}{A\n{}    \n  B}U \\x V', {}),
+    'verbatim_in_body': ('\\newcommand{\\vb}{\\begin{verbatim}abcdefghijklmnopqrstuvw\\end{verbatim}}A \\vb', {}),
+    'verbatim_in_default': ('\\newcommand{\\vb}[1][\\begin{verbatim}abcdefghijklmn\\end{verbatim}]{#1}A \\vb', {}),
+    'acronym_sharp_s': ('\\usepackage{glossaries}\\newacronym{a}{b}ß', {'pack': 'glossaries'}),
+    'missing_arg_par': ('\\newcommand{\\x}[1]{#1 suffix text}U \\x\n\nN', {}),
     'pure_action_lines': ('A\n\\label{q}\n\\index{q}\n\nB\n  \\zz\n\n\n\\zz\n\nC', {}),
     'removed_line_then_text': ('A\n\\newcommand{\\q}{}\nB \\q\n C', {}),
     'paragraph_tokens': ('A\n\n\n\\label{q}\n\n B', {}),
